@@ -56,7 +56,7 @@ CHECKS = {
     "C04": dict(
         engine="corr-trace",
         technique='Coq proof by invariant over all schedules of the traversal model (a worker awaiting a test holds that node copy marker; the number of distinct marker holders of a globally scoped class never exceeds the largest threshold of its copies) under graph hypotheses that are an executable check evaluated on every exported graph + trace refinement of the model against hand-driven real coroutines; the concurrency count on the implementation is additionally a monitor',
-        text=("Proved for EVERY graph meeting gwf_b, initial pool population and schedule (Proofs/TraverseExcl.v, C04_mutual_exclusion): at the state reached, the number of workers awaiting a test (creation pre-step included) on a copy of one globally scoped class is at most the largest threshold among the copies - max_concurrent_tries, else max_tries, at least 1, or the value after re-entrancy bumps, which only happen after a worker waited longer than the node's time budget (C04_bound_without_overrun: without a bump the bound is the configured limit); C04_running_holds_marker; plus the local test-and-set lemmas. gwf_b (one owner per composite node, bridged copies form classes agreeing on flat and reuse scope, root marked) is evaluated on every exported graph: its structural part must hold (obligation), the scope agreement fails exactly for mixed lxc/remote worker sets under a partial pool_scope, which stay outside the theorem. PARTIAL: classes with a per-swarm or per-worker reuse scope are covered by the monitor only; the model is tied to the code by the trace correspondence. Checked on the real code over random schedules with 2-4 workers meeting at the same node: never more than max(1, max_concurrent_tries or max_tries) workers of a scope inside one class, creation pre-step + installation counting as one interval; back-off periods equal the model's."),
+        text=("Proved for EVERY graph meeting gwf_b, initial pool population and schedule (Proofs/TraverseExcl.v, C04_mutual_exclusion): at the state reached, the number of workers awaiting a test (creation pre-step included) on a copy of one globally scoped class is at most the largest threshold among the copies - max_concurrent_tries, else max_tries, at least 1, or the value after re-entrancy bumps, which only happen after a worker waited longer than the node's time budget (C04_bound_without_overrun: without a bump the bound is the configured limit); C04_running_holds_marker; plus the local test-and-set lemmas. gwf_b (one owner per composite node, bridged copies form classes agreeing on flat and reuse scope, root marked) is evaluated on every exported graph: its structural part must hold (obligation), the scope agreement fails exactly for mixed lxc/remote worker sets under a partial pool_scope, which stay outside the theorem. C04_mutual_exclusion_per_swarm: the same bound for the workers of each swarm when the reuse scope is one swarm; C04_one_test_per_worker for per-worker scopes. PARTIAL only in that the model is tied to the code by the trace correspondence (and the monitor counts on the implementation), and that graphs whose copies disagree on the scope are outside the theorems. Checked on the real code over random schedules with 2-4 workers meeting at the same node: never more than max(1, max_concurrent_tries or max_tries) workers of a scope inside one class, creation pre-step + installation counting as one interval; back-off periods equal the model's."),
         note=TRAV_NOTE,
         design="§5 C04"),
     "C05": dict(
